@@ -27,13 +27,14 @@ def unhexStr (w : String) : Option Str :=
 
 /-- tokens of the tree encoding: `(`, `)` and words -/
 def tokenize (s : List Char) : List String :=
+  let flush := fun (acc : List String × List Char) =>
+    if acc.2.isEmpty then acc.1 else String.ofList acc.2.reverse :: acc.1
   let r := s.foldl (fun (acc : List String × List Char) c =>
-    let flush := if acc.2.isEmpty then acc.1 else String.ofList acc.2.reverse :: acc.1
-    if c = '(' then ("(" :: flush, [])
-    else if c = ')' then (")" :: flush, [])
-    else if c = ' ' then (flush, [])
+    if c = '(' then ("(" :: flush acc, [])
+    else if c = ')' then (")" :: flush acc, [])
+    else if c = ' ' then (flush acc, [])
     else (acc.1, c :: acc.2)) ([], [])
-  (if r.2.isEmpty then r.1 else String.ofList r.2.reverse :: r.1).reverse
+  (flush r).reverse
 
 def decodeAttrs : Nat → List String → Option (List (Str × Str) × List String)
   | 0, _ => none
